@@ -431,8 +431,8 @@ Fixpoint lookup_forward (tbl : list (mkind * string * string)) (k : mkind) (p : 
 Definition canon_prefix (k : mkind) (p : string) : string :=
   match lookup_forward gen_prefix_forward k p with Some q => q | None => p end.
 
-Fixpoint lookup_body (tbl : list (mkind * string * list (branch * bool) * dispatch)) (k : mkind) (p : string)
-  : option (list (branch * bool)) :=
+Fixpoint lookup_body (tbl : list (mkind * string * list (branch * logwrap) * dispatch)) (k : mkind) (p : string)
+  : option (list (branch * logwrap)) :=
   match tbl with
   | [] => None
   | (k', p', vs, _) :: r => if mkind_eqb k k' && String.eqb p p' then Some vs else lookup_body r k p
@@ -468,13 +468,44 @@ Record outcome := mk_out {
 
 Definition the_callsite : N := 1.
 
-(** One valueset! occurrence of the body is evaluated when its branch is taken; occurrences inside
-    `__tracing_log!` / `if_log_enabled!` do not exist with feature `log` off. *)
-Definition occurrence_runs (g : bool) (o : branch * bool) : bool :=
-  if snd o then false
-  else match fst o with InThen => g | InElse => negb g | Outside => true end.
+(** The `log` side: which cargo features `tracing` was compiled with, and the run-time facts the log-only code tests. *)
+Record logstate := mk_ls {
+  l_mode : logmode;
+  l_static_ok : bool;                (* the event's level passes log's compile-time cap *)
+  l_dispatch_ever : bool;            (* some dispatcher (global or scoped) has been set in this process *)
+  l_max_level_ok : bool;             (* the event's level passes log::max_level() *)
+  l_logger_enabled : bool }.         (* the installed logger wants records of this level / target *)
+Definition log_off : logstate := mk_ls LogOff false false false false.
+Definition eval_lcond (ls : logstate) (c : lcond) : bool :=
+  match c with
+  | LStaticOk => l_static_ok ls
+  | LNoDispatchEver => negb (l_dispatch_ever ls)
+  | LMaxLevelOk => l_max_level_ok ls
+  | LLoggerEnabled => l_logger_enabled ls
+  end.
+Fixpoint lookup_log (tbl : list (logmode * option (list lcond))) (m : logmode) : option (list lcond) :=
+  match tbl with
+  | [] => None
+  | (m', r) :: tl =>
+      if (match m, m' with LogOff, LogOff | LogOn, LogOn | LogAlways, LogAlways => true | _, _ => false end) then r
+      else lookup_log tl m
+  end.
+(** Does the code inside the log-only wrapper run?  ([None] in the table: the wrapper expands to nothing.) *)
+Definition log_block_runs (ls : logstate) (tbl : list (logmode * option (list lcond))) : bool :=
+  match lookup_log tbl (l_mode ls) with Some cs => forallb (eval_lcond ls) cs | None => false end.
+Definition wrap_runs (ls : logstate) (w : logwrap) : bool :=
+  match w with
+  | NoLog => true
+  | InIfLog => log_block_runs ls gen_if_log
+  | InTracingLog => log_block_runs ls gen_if_log && log_block_runs ls gen_tracing_log_arg
+  end.
 
-Definition run (inv : invocation) (c : collector) : option outcome :=
+(** One valueset! occurrence of the body is evaluated when its branch is taken and, for an occurrence inside
+    `__tracing_log!` / `if_log_enabled!`, when that log-only code exists and reaches it. *)
+Definition occurrence_runs (ls : logstate) (g : bool) (o : branch * logwrap) : bool :=
+  wrap_runs ls (snd o) && match fst o with InThen => g | InElse => negb g | Outside => true end.
+
+Definition run_log (ls : logstate) (inv : invocation) (c : collector) : option outcome :=
   match desugar_brace inv with
   | None => None
   | Some f =>
@@ -482,11 +513,11 @@ Definition run (inv : invocation) (c : collector) : option outcome :=
             fieldset_expand f, valueset_expand f with
       | Some occs, Some names, Some vals =>
           let g := guard c (i_level inv) in
-          let evals := List.length (filter (occurrence_runs g) occs) in
+          let evals := List.length (filter (occurrence_runs ls g) occs) in
           let ticks := List.concat (repeat (List.concat (map ve_ticks vals)) evals) in
           if g then
             (* the then-branch must build the value set it dispatches *)
-            if existsb (fun o => match fst o with InThen => negb (snd o) | _ => false end) occs then
+            if existsb (fun o => match o with (InThen, NoLog) => true | _ => false end) occs then
               match pair_up the_callsite 0 names vals with
               | Some entries =>
                   match vs_record the_callsite entries with
@@ -500,6 +531,9 @@ Definition run (inv : invocation) (c : collector) : option outcome :=
       | _, _, _ => None
       end
   end.
+
+(** Feature `log` off: the configuration every statement of C10 except [C10_lazy_with_log] is about. *)
+Definition run (inv : invocation) (c : collector) : option outcome := run_log log_off inv c.
 
 (** * Span::record and friends *)
 Inductive recop :=
